@@ -53,8 +53,8 @@ CLAIMED = {
    "12 bytes of lookahead slack derived from the lexer design (1 scanner byte + <= 10 peeked bytes + CR LF)."),
 
  "C12": ("exploration", "DESIGN.md §5 C12",
-   "exhaustive enumeration of all ordered pairs and triples of a near-collision pool (E1); every law evaluated on the real PartialEq/Hash/Ord/PartialOrd impls",
-   "All |Π|² pairs and |Π|³ triples of a pool built for near-collisions (±0, same magnitude under different/absent units, Refs differing in dis, same payload under different kinds, dict/list/grid neighbours, equal instants in different zones, nested copies) are checked against reflexivity, symmetry, transitivity, clone, eq⇒hash (two hashers), antisymmetry and transitivity of cmp, cmp=Equal⇔==, partial⇒total, and the collection consequences (HashSet/BTreeSet/BTreeMap/sort+dedup see exactly the ==-classes), for Value and 15 typed values, plus Eq/Hash/PartialOrd over all database units.",
+   "exhaustive enumeration of all ordered pairs and triples of a near-collision pool and of a wide set (pool + scalar alphabet + containers) (E1); every law evaluated on the real PartialEq/Hash/Ord/PartialOrd impls",
+   "All |Π|² pairs and |Π|³ triples of a pool built for near-collisions (±0, same magnitude under different/absent units, Refs differing in dis, same payload under different kinds, dict/list/grid neighbours, equal instants in different zones, nested copies) are checked against reflexivity, symmetry, transitivity, clone, eq⇒hash (two hashers), antisymmetry and transitivity of cmp, cmp=Equal⇔==, partial⇒total, and the collection consequences (HashSet/BTreeSet/BTreeMap/sort+dedup see exactly the ==-classes), for Value and 15 typed values, plus Eq/Hash/PartialOrd over all database units. Wide set W (pool, scalar alphabet, 300/1500 containers, grid ver variants; 1.4 k values quick, 6.2 k thorough): every pair law on all |W|² pairs, transitivity of == and cmp on all |W|³ triples decided through ranks/classes, every pair the partial order is silent on must be explained by Numbers with different units, and HashSet/BTreeSet/sort+dedup of W and of its unit-free part see exactly the ==-classes (known finding: sort of values holding Numbers with different units).",
    "No NaN (excluded by the statement). Two hashers stand for 'any hasher'. Values outside the pool are covered only by the small-scope argument."),
  "C13": ("model_checking", "DESIGN.md §5 C13",
    "exhaustive enumeration of all defs grids over 3/4 symbols (all DAGs x conjunct / feature / choice / malformed-row variants) and of the real defs database; every namespace query executed on the real code against an adjacency-map reference",
@@ -133,7 +133,7 @@ def main():
         "notes": "All checks: ./check <id> <quick|thorough>; exit 0 held / 1 VIOLATION / 2 machinery error. Known findings: /verif/known_findings.json. Design: /verif/DESIGN.md.",
         "not_applicable": [{"property_id": p, "reason": NOT_YET} for p in ALL if p not in CLAIMED],
     }
-    json.dump(m, open("/verif/MANIFEST.json", "w"), indent=1)
+    json.dump(m, open(os.path.join(os.path.dirname(os.path.dirname(os.path.abspath(__file__))), "MANIFEST.json"), "w"), indent=1)
     print("MANIFEST.json:", len(checks), "checks,", len(m["not_applicable"]), "not_applicable")
 
 main()
